@@ -131,7 +131,10 @@ impl<'a, 'b, 'c> AdtDeserializer<'a, 'b, 'c> {
                 if has_inputs {
                     self.context.push_region(self.inputs[chunk as usize]);
                 }
-                let result = if self.made_optional_at.contains_key(&field_position) {
+                let made_optional = field_position
+                    .map(|position| self.made_optional_at.contains_key(&position))
+                    .unwrap_or(false);
+                let result = if made_optional {
                     // The field was made optional in a newer version, so we have to read Option<T>
 
                     match bool::deserialize(self.context) {
@@ -222,12 +225,15 @@ impl<'a, 'b, 'c> AdtDeserializer<'a, 'b, 'c> {
         self.read_or_get_constructor_idx()
     }
 
-    fn record_field_index(&mut self, chunk: u8) -> FieldPosition {
+    /// The position of the next field of the chunk, or None when it lies beyond what a header byte can name
+    /// (such a field cannot be the subject of a made-optional step, and must not be taken for the one at position modulo 256).
+    fn record_field_index(&mut self, chunk: u8) -> Option<FieldPosition> {
         let last_index = &mut self.last_index_per_chunk[chunk as usize];
         let new_index = *last_index + 1;
-        let fp = FieldPosition::new(chunk, new_index as u8);
         *last_index = new_index;
-        fp
+        u8::try_from(new_index)
+            .ok()
+            .map(|position| FieldPosition::new(chunk, position))
     }
 
     fn read_or_get_constructor_idx(&mut self) -> Result<u32> {
